@@ -840,9 +840,3 @@ func postRestartWrites(ctx *Ctx, id, prop string, c SDCase, core *hub.Core, m *m
 	}
 }
 
-func firstLine(s string) string {
-	if i := strings.Index(s, "\n"); i >= 0 {
-		return s[:i]
-	}
-	return s
-}
